@@ -42,7 +42,7 @@ def soundness_full : Prop :=
   ∀ (ops : Ops) (s : Schema) (doc : Doc) (op : Operation) (opName : Option Name) (vars : Vars)
     (root : RVal) (rt : Name),
     SoundHyps ops s → Spec.getOperation doc.ops opName = some op → validOp s doc op = true →
-    VarsOk ops s op vars → MergeOk ops s doc vars → mayHitNullViaDefault doc op vars = false →
+    VarsOk ops s op vars → MergeOk ops s doc vars → mayHitNullViaDefault s doc op vars = false →
     Spec.rootType s op.kind = some rt → Conforms ops s (.named rt true) root →
     (Spec.executeRequest ops s doc opName vars root).errors = [] ∧
     shapeResponse ops s doc op vars root (Spec.executeRequest ops s doc opName vars root).data = true
@@ -53,7 +53,7 @@ def blame_full : Prop :=
   ∀ (ops : Ops) (s : Schema) (doc : Doc) (op : Operation) (opName : Option Name) (vars : Vars)
     (root : RVal),
     SoundHyps ops s → Spec.getOperation doc.ops opName = some op → validOp s doc op = true →
-    VarsOk ops s op vars → MergeOk ops s doc vars → mayHitNullViaDefault doc op vars = false →
+    VarsOk ops s op vars → MergeOk ops s doc vars → mayHitNullViaDefault s doc op vars = false →
     ∀ e ∈ (Spec.executeRequest ops s doc opName vars root).errors,
       e.kind ≠ .argCoercion ∧ e.kind ≠ .directiveCoercion ∧ e.kind ≠ .noRootType
 
@@ -94,7 +94,7 @@ theorem soundness_partial₁ (ops : Ops) (s : Schema) (doc : Doc) (hyps : SoundH
   -- the root value is an object node of the root type
   cases root with
   | null => simp [Conforms, TypeRef.nonNull] at hconf
-  | raise tag => simp [Conforms] at hconf
+  | raise tag p => simp [Conforms] at hconf
   | leaf l => simp [Conforms, hk] at hconf
   | list items => simp [Conforms] at hconf
   | obj tn f =>
